@@ -166,7 +166,7 @@ Record fields_ok (t : tsig_out) (f : tsig_fields) : Prop := mkFO {
   fo_err : tf_error f = Server.t_error t;
   fo_oid : (tf_origid f < 65536)%N }.
 
-Lemma mode_alg_ok t : tsig_src t -> wire_name_ok (mode_alg_wire (t_mode t)).
+Lemma mode_alg_ok verify t : tsig_src verify t -> wire_name_ok (mode_alg_wire (t_mode t)).
 Proof.
   intros (Wrd & Vrd & _ & M). destruct (validated_tsig _ Vrd) as (al & ms & ol & V & Eal & _).
   destruct (t_mode t) as [aw|a sec mac]; cbn [mode_alg_wire].
@@ -174,10 +174,10 @@ Proof.
   - apply wno_alg.
 Qed.
 
-Lemma tsig_fields_total now t : (now < 281474976710656)%N -> tsig_src t ->
+Lemma tsig_fields_total verify now t : (now < 281474976710656)%N -> tsig_src verify t ->
   exists f, tsig_fields_of now t = Some f /\ fields_ok t f.
 Proof.
-  intros Hnow S. pose proof (mode_alg_ok t S) as Halg. destruct S as (Wrd & Vrd & (b & c & nm & l & Wb & Pk & Ek) & M).
+  intros Hnow S. pose proof (mode_alg_ok verify t S) as Halg. destruct S as (Wrd & Vrd & (b & c & nm & l & Wb & Pk & Ek) & M).
   destruct (validated_tsig _ Vrd) as (al & ms & ol & V & Eal & G1 & L).
   unfold tsig_fields_of. rewrite (now_octets now Hnow).
   unfold req_origid. rewrite Eal, G1.
